@@ -273,6 +273,21 @@ def equal_selection_cases(thorough):
                            'interleave': True}
 
 
+# NAME SHAPES: the same family over port names that are keywords / builtins of Python, keywords of C++, or made of underscores
+ODD_UNIVERSES = [(['pass', 'from'], ['is', 'None']), (['default', 'new'], ['this', 'union']), (['_a', 'a__b'], ['__x', 'x_']),
+                 (['async', 'match'], ['print', 'type']), (['P', 'p'], ['Q1', 'q1'])]
+
+
+def odd_name_cases(_thorough):
+    for own_p, own_r in ODD_UNIVERSES:
+        universe = own_p + own_r + ['u']
+        for sts, mts in itertools.product(R.selections(universe), repeat=2):
+            for prov in R.subsets(own_p):
+                for req in R.subsets(own_r):
+                    for inj in ([], ['i']):
+                        yield {'kind': 'e2e', 'prov': prov, 'req': req, 'inj': inj, 'psel': [sts, mts], 'rsel': [sts, mts]}
+
+
 def class_cross_cases(thorough):
     """One representative per (verdict, reason/mapping) class of each side, crossed."""
     own_p, own_r = universes(thorough)
@@ -297,7 +312,7 @@ def class_cross_cases(thorough):
 def work(job):
     which, idx, nslots, thorough = job
     part = Partial()
-    gen = {'side': side_cases, 'e2e': e2e_cases, 'cross': class_cross_cases, 'equal': equal_selection_cases,
+    gen = {'side': side_cases, 'e2e': e2e_cases, 'cross': class_cross_cases, 'equal': equal_selection_cases, 'odd': odd_name_cases,
            'preset': lambda _t: preset_cases()}[which](thorough)
     for k, case in enumerate(gen):
         if k % nslots != idx:
@@ -330,7 +345,8 @@ def work(job):
 def explore(ctx):
     th = ctx.thorough
     jobs = [('side', i, 8, th) for i in range(8)] + [('e2e', i, 48, th) for i in range(48)] + \
-           [('equal', i, 16, th) for i in range(16)] + [('preset', i, 8, th) for i in range(8)]
+           [('equal', i, 16, th) for i in range(16)] + [('preset', i, 8, th) for i in range(8)] + \
+           [('odd', i, 16, th) for i in range(16)]
     if th:
         jobs += [('cross', i, 16, th) for i in range(16)]
     for part in pmap(work, jobs):
